@@ -92,11 +92,27 @@ class Ctx:
         os.makedirs(BUILD, exist_ok=True)
         with open(os.path.join(BUILD, ".make.lock"), "w") as lk:
             fcntl.flock(lk, fcntl.LOCK_EX)
-            if not os.path.exists(os.path.join(COQ, "Makefile")):
-                rc, out = sh(["bash", os.path.join(VERIF, "setup.sh")], timeout=3400)
+            self._refresh_makefile()
             rc, out = sh(["make", "-j8", "-C", COQ] + list(targets), timeout=timeout)
             fcntl.flock(lk, fcntl.LOCK_UN)
         return rc, out
+
+    @staticmethod
+    def _refresh_makefile():
+        """Regenerate _CoqProject/Makefile when the set of .v files changed (called under the make lock)."""
+        files = []
+        for root, _, names in os.walk(os.path.join(COQ, "theories")):
+            for n in names:
+                if n.endswith(".v"):
+                    files.append(os.path.relpath(os.path.join(root, n), COQ))
+        files.sort()
+        want = "-Q theories UPV\n-arg -w -arg -notation-overridden,-deprecated-hint-without-locality,-deprecated-instance-without-locality\n" + "\n".join(files) + "\n"
+        cp = os.path.join(COQ, "_CoqProject")
+        have = open(cp).read() if os.path.exists(cp) else ""
+        if have != want or not os.path.exists(os.path.join(COQ, "Makefile")):
+            with open(cp, "w") as f:
+                f.write(want)
+            sh(["coq_makefile", "-f", "_CoqProject", "-o", "Makefile"], cwd=COQ, timeout=120)
 
     def check_props(self, extra=()):
         """Re-check the property theorems: build the dependencies, then compile Props/<pid>.v afresh and read
